@@ -53,6 +53,7 @@ fn main() {
             "writer" => writer::replay(&sc),
             "client" => client::replay(&sc),
             "sink" => sinks::replay(&sc),
+            "c12-stress" => sinks::c12_stress(&sc),
             "holder-window" => holder::replay(&sc),
             "macro" => macros::replay(&sc),
             "queue" | "queue-capacity" | "queue-blocking-emit" | "queue-stats" => queue::replay(&sc),
